@@ -582,6 +582,91 @@ def rule_default_literal(ctx):
                 obs.append(ok('DEFAULT-LITERAL', inst, 'enum default values are rendered as `<generated enum>::<variant>` (%d template(s))' % good, loc))
     if not found:
         obs.append(bad('DEFAULT-LITERAL', 'floor/Enum', 'the value renderer has no enum-value arm', '', 'checker lost its anchor'))
+    # --- list elements, object literals (@oneOf inputs are enums; cycle-closing members are boxed)
+    from .rules_hir import callgraph
+    cgr = callgraph(ctx)
+    for fn, m in ms:
+        # the functions the renderer is made of: the matching function and the workspace functions its arms call
+        fam = [fn]
+        for k_ in sorted(cgr.reachable([fn.key])):
+            f_ = ctx.fn_by_key(k_)
+            if f_ is not None and f_ not in fam and not f_.from_macro and norm_path(f_.path).startswith('graphql_client_codegen::codegen') \
+                    and any(n_['k'] == 'macro' and n_['name'].split('::')[-1] == 'quote' for n_ in H.walk(f_.body)) and fn.key in cgr.reachable([f_.key]):
+                fam.append(f_)     # mutually recursive with the value renderer: the object-literal renderer
+        for a in m['arms']:
+            p = a['pat']
+            while p.get('k') in ('ref', 'guard') and 'pat' in p:
+                p = p['pat']
+            path = (p.get('res') or {}).get('path', '') if isinstance(p.get('res'), dict) else ''
+            if path.endswith('::List'):
+                inst = '%s/List' % short(fn.path)
+                consts = []
+                nrec = 0
+                for f_, c in H.deep_nodes(ctx, fn, a['body'], 1):
+                    if c['k'] in ('call', 'mcall') and any(lf_.key == fn.key for lf_ in ctx.pv.local_fns(c.get('callee')) or []):
+                        nrec += 1
+                        for arg in c.get('args', []):
+                            x = arg
+                            while x.get('k') in ('wrap', 'ref'):
+                                x = x['e']
+                            if x.get('k') == 'lit' and isinstance(x['lit'].get('v'), bool):
+                                consts.append(x['lit']['v'])
+                if consts:
+                    obs.append(bad('DEFAULT-LITERAL', inst, 'the elements of a list default value are rendered with a constant optionality (%s) instead of the element type of the list' % consts[0], a['body'].get('sp', fn.loc),
+                                   '`[Int]` (Vec<Option<i64>>) gets `vec![1, 2]` (E0308)'))
+                elif nrec:
+                    obs.append(ok('DEFAULT-LITERAL', inst, 'list elements are rendered from the element type (%d recursive call(s), no constant flag)' % nrec, a['body'].get('sp', fn.loc)))
+                else:
+                    obs.append(undecided('DEFAULT-LITERAL', inst, 'the list arm does not call the value renderer for its elements in a recognised way', a['body'].get('sp', fn.loc)))
+        objf = [f_ for f_ in fam if f_ is not fn]
+        if not objf:
+            obs.append(undecided('DEFAULT-LITERAL', '%s/Object' % short(fn.path), 'no separate object-literal renderer found', fn.loc))
+            continue
+        texts = []
+        reads_one_of = False
+        callees = set()
+        for f_ in objf:
+            for n_ in H.walk(f_.body):
+                if n_['k'] == 'macro' and n_['name'].split('::')[-1] == 'quote':
+                    texts.append(re.sub(r'\s+', ' ', n_.get('text', '')))
+                if n_['k'] == 'field' and n_.get('name') == 'is_one_of' and 'StoredInputType' in n_.get('adt', ''):
+                    reads_one_of = True
+                if n_['k'] in ('call', 'mcall'):
+                    for lf_ in ctx.pv.local_fns(n_.get('callee')) or []:
+                        callees.add(lf_.key)
+        inst = '%s/oneOf' % short(objf[0].path)
+        variant_form = any(re.search(r'#\w+ ?:: ?#\w+ ?\(', t_) for t_ in texts)
+        if reads_one_of and variant_form:
+            obs.append(ok('DEFAULT-LITERAL', inst, 'a @oneOf input (generated as an enum) gets `<Enum>::<Variant>(value)`, chosen on StoredInputType.is_one_of', objf[0].loc))
+        else:
+            obs.append(bad('DEFAULT-LITERAL', inst, 'object literals are always struct literals (is_one_of read: %s, variant form: %s) although @oneOf inputs are generated as enums' % (reads_one_of, variant_form), objf[0].loc,
+                           'a default value for a @oneOf input does not compile (E0574)'))
+        # the members boxed in the type definition are boxed in the literal: same predicate
+        gen = ctx.fn('codegen', 'codegen::inputs::generate_struct')
+        preds = set()
+
+        def recursion_predicates(f0):
+            """bool functions over (InputId, &Schema) reachable from f0 within two calls: the input-recursion test"""
+            out = set()
+            for f1, n_ in H.deep_nodes(ctx, f0, f0.body, 2):
+                if n_['k'] in ('call', 'mcall'):
+                    for lf_ in ctx.pv.local_fns(n_.get('callee')) or []:
+                        ptys = ' '.join(p_.get('ty', '') for p_ in lf_.params)
+                        if lf_.d.get('output', '') == 'bool' and 'InputId' in ptys and 'Schema' in ptys:
+                            out.add(lf_.key)
+            return out
+        if gen is not None:
+            preds = recursion_predicates(gen)
+        for f_ in objf:
+            callees |= recursion_predicates(f_)
+        inst = '%s/boxed' % short(objf[0].path)
+        if not preds:
+            obs.append(undecided('DEFAULT-LITERAL', inst, 'the recursion predicate of the input struct definition was not found', objf[0].loc))
+        elif (preds & callees) and any('Box :: new' in t_ or 'Box::new' in t_ for t_ in texts):
+            obs.append(ok('DEFAULT-LITERAL', inst, 'members are wrapped in Box::new under the predicate the type definition uses', objf[0].loc))
+        else:
+            obs.append(bad('DEFAULT-LITERAL', inst, 'the object-literal renderer never boxes a member (predicate called: %s) although the type definition boxes cycle-closing members' % bool(preds & callees), objf[0].loc,
+                           'a default value for a recursive input type does not compile (E0308)'))
     return obs
 
 
